@@ -182,7 +182,7 @@ func (w *world) openNode(name string, prune ...stypes.PruneStrategy) *node {
 // ---- workload generation -----------------------------------------------------------
 
 var okFns = []string{"Incr", "Push", "Pop", "Share", "Unshare", "Adopt", "DropKids", "Grow", "Shrink", "PairBump", "Incr", "Push", "Push", "Grow",
-	"AddItem", "AddItem", "AddItem", "RemoveItem", "RemoveItem", "InsertItem", "SwapItems"}
+	"AddItem", "AddItem", "AddItem", "RemoveItem", "RemoveItem", "InsertItem", "SwapItems", "Record", "Record", "Forget"}
 
 func (w *world) genBoxMsg() simMsg {
 	c := w.c
@@ -197,6 +197,10 @@ func (w *world) genBoxMsg() simMsg {
 		m.args = []string{strconv.Itoa(1 + c.Intn(3)), strconv.Itoa(8 + c.Intn(120))}
 	case "Shrink":
 		m.args = []string{strconv.Itoa(1 + c.Intn(6))}
+	case "Record":
+		m.args = []string{strconv.Itoa(1 + c.Intn(3)), strconv.Itoa(c.Intn(300))}
+	case "Forget":
+		m.args = []string{strconv.Itoa(1 + c.Intn(4))}
 	case "AddItem":
 		m.args = []string{strconv.Itoa(1 + c.Intn(900))}
 	case "RemoveItem":
